@@ -1135,3 +1135,9 @@ def agree_keyword_named_states(ni: int, di: int, inner: bool) -> bool:
     ensures: _
     """
     return agrees(verdict(build_keyword_named(ni, di, True if inner else False)))
+
+
+
+# a poison REPLY on the reply queue: "the engine keeps serving" (whole-run, simulated broker)
+import s2_found as found
+found.register(globals(), {"C18", "C02", "C03"}, ["odd_task_replies"])
